@@ -220,6 +220,10 @@ def finish(prop: str, mod, tier: str, seed: int, cases: list, records: list, t0:
     slow = sorted(records, key=lambda r: -float(r.get("t", 0.0)))[:3]
     cov["slowest_cases"] = [{"case_id": r.get("case_id"), "seconds": r.get("t"), "status": r.get("status"),
                              "cls": r.get("cls"), "reason": r.get("reason")} for r in slow]
+    sib = Counter(str(r.get("sibling")) for r in records if r.get("sibling") is not None)
+    if sib or getattr(mod, "SIBLING_EVERY", 0):
+        # same-shape second problem/solver built after the main case in the same process (vf/worker.py)
+        cov["same_shape_sibling_runs"] = dict(sib)
     agg = getattr(mod, "aggregate", None)
     if agg:
         try:
